@@ -2,7 +2,7 @@
 
    The heap machine of DbHeap.v is extended by
      - findall/3 (engine.py YP.findall: run the goal on the stored facts to exhaustion, collect
-       get_value(template) per answer, unify the bag with the list of the results and stay suspended
+       a copy of the template (new variables) per answer, unify the bag with the list of the results and stay suspended
        at that unification), the construct through which compiled code keeps answers of a use of a
        fact after that use has ended;
      - the list K of RETAINED ANSWERS: every answer the machine ever handed out (the arguments of a goal
@@ -33,13 +33,16 @@ Definition mk_list (l : list term) : term := fold_right (fun x r => TFun (d "."%
 Section Ret.
   Variable fuel : nat.
 
-  (* [get_value(template) for r in q] over the snapshot of the facts *)
+  (* [copy_term(template, {}) for r in q] over the snapshot of the facts: each collected instance is a COPY with new
+     cells (engine.py YP.findall since the repair D27; copy_args is the model of copy_term, DbFacts.v) *)
   Fixpoint hall_t (s : store) (n : nat) (tmpl : term) (pat : list term) (l : list fact) : option (list term * nat) :=
     match l with
     | [] => Some ([], n)
     | f :: r =>
         match answer_match fuel s n pat (fargs f) with
-        | (UOk s', n') => match hall_t s n' tmpl pat r with Some (x, n2) => Some (den s' tmpl :: x, n2) | None => None end
+        | (UOk s', n') =>
+            let '(cs, n1) := copy_args s' [tmpl] n' in
+            match hall_t s n1 tmpl pat r with Some (x, n2) => Some (cs ++ x, n2) | None => None end
         | (UFail, n') => hall_t s n' tmpl pat r
         | _ => None
         end
@@ -125,8 +128,9 @@ Section Ret.
     induction l as [|f l IH]; intros s n x n' H; cbn [hall_t] in H.
     - inversion H; subst. auto.
     - destruct (answer_match fuel s n pat (fargs f)) as [u n1] eqn:M. pose proof M as L; apply answer_match_mono in L.
-      destruct u; try discriminate.
-      + destruct (hall_t s n1 tmpl pat l) as [[y n2]|] eqn:E; [|discriminate]. inversion H; subst. apply IH in E. lia.
+      destruct u as [s1| | |]; try discriminate.
+      + destruct (copy_args s1 [tmpl] n1) as [cs n1c] eqn:Cp. destruct (copy_cells Cp) as [Lc _].
+        destruct (hall_t s n1c tmpl pat l) as [[y n2]|] eqn:E; [|discriminate]. inversion H; subst. apply IH in E. lia.
       + apply IH in H. lia.
   Qed.
 
@@ -188,13 +192,16 @@ Section Ret.
       assert (Lp1: lin (Pc n1 F) pat) by (eapply lin_mono; [|exact Lp]; intros v; apply Pc_mono; exact L).
       assert (Lt1: tin (Pc n1 F) tmpl) by (eapply tin_mono; [|exact Lt]; intros v; apply Pc_mono; exact L).
       destruct u as [s1| | |]; try discriminate.
-      + destruct (hall_t s n1 tmpl pat l) as [[y n2]|] eqn:E; [|discriminate]. inversion H; subst.
+      + destruct (copy_args s1 [tmpl] n1) as [cs n1c] eqn:Cp.
+        destruct (@copy_lin_new F s1 n1 [tmpl] cs n1c R1 Cp) as [Lc Lcs].
+        assert (Gc: good (Pc n1c F) s) by (eapply good_mono; [|exact G1]; intros v; apply Pc_mono; exact Lc).
+        assert (Rc: forall w, F w = true -> w < n1c) by (intros w Hw; apply R1 in Hw; lia).
+        assert (Lpc: lin (Pc n1c F) pat) by (eapply lin_mono; [|exact Lp1]; intros v; apply Pc_mono; exact Lc).
+        assert (Ltc: tin (Pc n1c F) tmpl) by (eapply tin_mono; [|exact Lt1]; intros v; apply Pc_mono; exact Lc).
+        destruct (hall_t s n1c tmpl pat l) as [[y n2]|] eqn:E; [|discriminate]. inversion H; subst.
         pose proof E as L2; apply hall_t_mono in L2.
-        constructor; [|eapply IH; eauto].
-        destruct Po as [nw [-> Gn]].
-        assert (Gs: good (Pc n1 F) (nw ++ s)) by (apply good_app; auto).
-        eapply tin_mono; [intros v; apply Pc_mono; exact L2|].
-        apply den_tin; [apply good_closed; exact Gs|exact Lt1].
+        apply Forall_app. split; [|eapply IH; eauto].
+        eapply lin_mono; [intros v; apply Pc_mono; exact L2|exact Lcs].
       + eapply IH; eauto.
   Qed.
 
